@@ -102,6 +102,14 @@ def main():
     lines.append('(* gitypeinfo.c: g_type_info_get_param_type  --  offset = %s *)' % mt.group(1))
     lines.append('Definition acc_g_type_info_get_param_type (base sizeof_ParamTypeBlob sizeof_SimpleTypeBlob n : Z) : Z := '
                  'base + sizeof_ParamTypeBlob + sizeof_SimpleTypeBlob * n.')
+    # gitypeinfo.c: what the API says about the dimensions of an array (recognised textually, fail-closed)
+    if 'if (blob->has_length) return blob->dimensions.length;' not in tsrc or 'if (blob->has_size) return blob->dimensions.size;' not in tsrc \
+            or tsrc.count('return -1;') < 2:
+        raise TranslationError('gitypeinfo.c: g_type_info_get_array_length / _fixed_size not recognised')
+    lines.append('(* gitypeinfo.c: g_type_info_get_array_length  --  if (blob->has_length) return blob->dimensions.length; ... return -1 *)')
+    lines.append('Definition acc_g_type_info_get_array_length (has_length : bool) (dimension : Z) : Z := if has_length then dimension else -1.')
+    lines.append('(* gitypeinfo.c: g_type_info_get_array_fixed_size  --  if (blob->has_size) return blob->dimensions.size; ... return -1 *)')
+    lines.append('Definition acc_g_type_info_get_array_fixed_size (has_size : bool) (dimension : Z) : Z := if has_size then dimension else -1.')
     # the builder's alignment macro
     nsrc = open(os.path.join(REPO, 'girepository', 'girnode.c')).read()
     m = re.search(r'^#define\s+ALIGN_VALUE\s*\(\s*(\w+)\s*,\s*(\w+)\s*\)\s*\\?\s*\n?\s*(.*)$', nsrc, flags=re.M)
